@@ -126,20 +126,24 @@ OTHER_XML = b'<?xml version="1.0" encoding="utf-8"?><Foo xmlns="urn:foo:1.0"><Ba
 NON_XML = b'\x00\x01\x02 this is not xml <<< &'
 
 
+IGEOLO = '000029N0000022W000020N0000026E000029S0000022E000020S0000026W'
+
+
 def nitf20_image(kind):
     from sarpy.io.general.nitf_elements.image import ImageSegmentHeader0, ImageBands, ImageBand
-    if kind == 'c':      # complex-like: SAR, real 32 bit, bands I / Q
+    if kind in ('c', 'cn'):      # complex-like: SAR, real 32 bit, bands I / Q; `cn` = without geolocation (ICORDS 'N', no IGEOLO)
+        geo = dict(ICORDS='G', IGEOLO=IGEOLO) if kind == 'c' else dict(ICORDS='N')
         h = ImageSegmentHeader0(IID='CPLX000001', NROWS=3, NCOLS=4, PVTYPE='R', IREP='NODISPLY', ICAT='SAR', ABPP=32, IC='NC', IMODE='P',
-                                NPPBH=4, NPPBV=3, NBPP=32, NBPC=1, NBPR=1)
+                                NPPBH=4, NPPBV=3, NBPP=32, NBPC=1, NBPR=1, **geo)
         h.Bands = ImageBands(values=[ImageBand(ISUBCAT='I'), ImageBand(ISUBCAT='Q')])
         return h.to_bytes(), bytes(3 * 4 * 8)
     if kind == 'o':      # not SAR
-        h = ImageSegmentHeader0(IID='VIS0000001', NROWS=3, NCOLS=4, PVTYPE='INT', IREP='MONO', ICAT='VIS', ABPP=8, IC='NC', IMODE='B',
+        h = ImageSegmentHeader0(IID='VIS0000001', NROWS=3, NCOLS=4, PVTYPE='INT', IREP='MONO', ICAT='VIS', ABPP=8, ICORDS='N', IC='NC', IMODE='B',
                                 NPPBH=4, NPPBV=3, NBPP=8, NBPC=1, NBPR=1)
         h.Bands = ImageBands(values=[ImageBand(IREPBAND='M')])
         return h.to_bytes(), bytes(12)
     if kind.startswith('d'):   # SAR, 8 bit integer, SIDD-style name
-        h = ImageSegmentHeader0(IID='SIDD%03d001' % (int(kind[1:]) + 1), NROWS=3, NCOLS=4, PVTYPE='INT', IREP='MONO', ICAT='SAR', ABPP=8,
+        h = ImageSegmentHeader0(IID='SIDD%03d001' % (int(kind[1:]) + 1), NROWS=3, NCOLS=4, PVTYPE='INT', IREP='MONO', ICAT='SAR', ABPP=8, ICORDS='G', IGEOLO=IGEOLO,
                                 IC='NC', IMODE='B', NPPBH=4, NPPBV=3, NBPP=8, NBPC=1, NBPR=1)
         h.Bands = ImageBands(values=[ImageBand(IREPBAND='M')])
         return h.to_bytes(), bytes(12)
